@@ -110,4 +110,45 @@ theorem mangleLoop_fresh (builtins : List Str) (ns : Namespace) (base : Str) (ob
       exact tryAddConstant_fresh builtins ns ns1 _ obj hadd
     · exact ih (i + 1) name ns' h
 
+/-- a name handed out by the mangling loop is `base_<decimal number>` -/
+theorem mangleLoop_name (builtins : List Str) (ns : Namespace) (base : Str) (obj : Nat) :
+    ∀ fuel i name ns', mangleLoop builtins ns base obj fuel i = some (name, ns') →
+      ∃ j, name = base ++ 95 :: decimal j := by
+  intro fuel
+  induction fuel with
+  | zero => intro i name ns' h; simp [mangleLoop] at h
+  | succ f ih =>
+    intro i name ns' h
+    unfold mangleLoop at h
+    simp only at h
+    split at h
+    · simp at h
+      exact ⟨i, h.1.symm⟩
+    · exact ih (i + 1) name ns' h
+
+theorem decimal_digits (n : Nat) : ∀ c ∈ decimal n, (48 ≤ c && c ≤ 57) = true := by
+  intro c hc
+  unfold decimal at hc
+  obtain ⟨ch, hch, rfl⟩ := List.mem_map.mp hc
+  have hd := Nat.isDigit_of_mem_toDigits (by decide) (by decide) hch
+  simp [Char.isDigit] at hd
+  have h1 := UInt32.le_iff_toNat_le.mp hd.1
+  have h2 := UInt32.le_iff_toNat_le.mp hd.2
+  simp only [Bool.and_eq_true, decide_eq_true_eq]
+  exact ⟨h1, h2⟩
+
+theorem identShaped_ne_nil {idCont : Nat → Bool} {s : Str} (h : IdentShaped idCont s) : s ≠ [] := by
+  intro hs; subst hs; exact h
+
+theorem identShaped_append {idCont : Nat → Bool} {s t : Str} (h : IdentShaped idCont s)
+    (ht : ∀ c ∈ t, idCont c = true) : IdentShaped idCont (s ++ t) := by
+  cases s with
+  | nil => exact absurd h (by simp [IdentShaped])
+  | cons a r =>
+    refine ⟨h.1, ?_⟩
+    intro c hc
+    rcases List.mem_append.mp hc with hc | hc
+    · exact h.2 c hc
+    · exact ht c hc
+
 end Adaptix.Gen
